@@ -10,4 +10,7 @@ MUTANTS = [
     M('C08', 'ptr_index scales by w', P + 'pointer_arithmetics.fj', "        rep(8-#w, i) .shr_bit w/4, dst", "        rep(9-#w, i) .shr_bit w/4, dst", 'C08.PTR-STRIDE'),
     M('C08', 'call with args forgets to drop them', 'flipjump/stl/ptrlib.fj', "hex.sp_sub", "hex.sp_add", 'C08.SP'),
     M('C08', 'sp_dec decrements another pointer', P + 'stack.fj', "        .ptr_dec hex.pointers.sp", "        .ptr_dec hex.pointers.to_flip", 'C08.SP'),
+    M('C08', 'zero_ptr clears the low hex only (seed C08_2)', 'flipjump/stl/hex/pointers/write_pointers.fj', "        .pointers.read_byte_from_inners_ptrs\n        .pointers.xor_byte_to_flip_ptr hex.pointers.read_byte\n    }\n\n    //  Time Complexity: w(0.75@+5)  + 17@+37", "        .pointers.read_byte_from_inners_ptrs\n        .pointers.xor_hex_to_flip_ptr hex.pointers.read_byte\n    }\n\n    //  Time Complexity: w(0.75@+5)  + 17@+37", 'C08.CELL-WIDTH'),
+    M('C08', 'write_byte xors back one hex only', 'flipjump/stl/hex/pointers/write_pointers.fj', "        .xor 2, hex.pointers.read_byte, src\n        .pointers.xor_byte_to_flip_ptr hex.pointers.read_byte", "        .xor 2, hex.pointers.read_byte, src\n        .pointers.xor_hex_to_flip_ptr hex.pointers.read_byte", 'C08.CELL-WIDTH'),
+    M('C08', 'xor_byte_to_flip_ptr shifts the second hex by 8', 'flipjump/stl/hex/pointers/xor_to_pointer.fj', "            rep(2, i) .xor_hex_to_flip_ptr hex+i*dw, 4*i", "            rep(2, i) .xor_hex_to_flip_ptr hex+i*dw, 8*i", 'C08.CELL-WIDTH'),
 ]
